@@ -221,6 +221,12 @@ def judge(case):
                     if ret is not False:
                         out.fail("add_gene:refusal-returns-true", "refused re-add of %r returned %r" % (gn, ret), {"step": i, "op": op})
                         return out
+                    st_ = g.get_statistics()
+                    if st_["mutations_count"] != stats0["mutations_count"] + 1 or st_["approved_mutations"] != stats0["approved_mutations"]:
+                        # "every refused attempt is logged as unapproved" - re-adding a gene is one of the operations the statement lists
+                        out.fail("add_gene:refusal-not-logged", "refused re-add of %r: mutations_count %d -> %d, approved %d -> %d"
+                                 % (gn, stats0["mutations_count"], st_["mutations_count"], stats0["approved_mutations"], st_["approved_mutations"]), {"step": i, "op": op})
+                        return out
             elif name == "mutate":
                 _, _, gn, v = op
                 ret = g.mutate(gn, json.loads(_c(v)), "test")
